@@ -115,6 +115,29 @@ pub mod http {
     #[verifier::external_body]
     pub fn invalid_query<E>(source: E, name: &str, val: &str) -> (r: S3Error) ensures r.code is InvalidArgument, r.why is Invalid { unimplemented!() }
 
+    /// dto::Timestamp / TimestampFormat: Timestamp::parse as a function of (format, text) (time crate: trusted)
+    pub struct Timestamp { pub o: u64 }
+    pub struct ParseTimestampError { pub o: u64 }
+    pub struct ToStrError { pub o: u64 }
+//@@ extract T_TimestampFormat file=crates/s3s/src/dto/timestamp.rs item="enum TimestampFormat" rewrites=attr
+    pub uninterp spec fn spec_parse_timestamp(fmt: TimestampFormat, s: Seq<char>) -> Result<Timestamp, ParseTimestampError>;
+    impl Timestamp {
+        #[verifier::external_body]
+        pub fn parse(fmt: TimestampFormat, s: &str) -> (r: Result<Timestamp, ParseTimestampError>)
+            ensures r == spec_parse_timestamp(fmt, s@)
+        { unimplemented!() }
+    }
+    /// the visible-ASCII text of a header value, if it is one (HeaderValue::to_str)
+    pub uninterp spec fn hv_text(v: HeaderValue) -> Option<Seq<char>>;
+    impl HeaderValue {
+        #[verifier::external_body]
+        pub fn to_str(&self) -> (r: Result<&str, ToStrError>)
+            ensures (r matches Ok(s) ==> hv_text(*self) == Some(s@)), (r is Err ==> hv_text(*self) is None)
+        { unimplemented!() }
+    }
+
+//@@ extract parse_opt_header_timestamp file=crates/s3s/src/http/de.rs item="fn parse_opt_header_timestamp" rewrites=attr,ret,closure:1:S3Error
+//@@ extract parse_opt_query_timestamp file=crates/s3s/src/http/de.rs item="fn parse_opt_query_timestamp" rewrites=attr,ret,closure:1:S3Error
 //@@ extract parse_header file=crates/s3s/src/http/de.rs item="fn parse_header" rewrites=attr,ret,dropwhere
 //@@ extract parse_opt_header file=crates/s3s/src/http/de.rs item="fn parse_opt_header" rewrites=attr,ret,dropwhere
 //@@ extract parse_query file=crates/s3s/src/http/de.rs item="fn parse_query" rewrites=attr,ret,dropwhere
